@@ -12,6 +12,8 @@ import (
 	"bytes"
 	"fmt"
 	"math/rand"
+	"net"
+	"os"
 	"sort"
 	"strings"
 	"sync"
@@ -364,6 +366,197 @@ func TestVerifC10(t *testing.T) {
 	run.Observe("pool_histories", nh)
 	run.Observe("pool_histories_linearizable", okc)
 	run.Observe("pool_checker_timeouts", unknown)
+	// (c) load: the consumer of the listener stalls for a moment (a blocking next hop), thousands
+	// of datagrams pile up between the receive goroutine and the parser, the stall ends; every
+	// datagram received then and afterwards - in particular long ones after short ones - must
+	// still come out as the image of itself
+	c10Backlog(run)
 	run.Assume("in-package part: datagrams are handed to the real parse loop through its own channel exactly as the receive goroutine does (buffer + length); the socket itself is exercised by the wire part")
 	vfFinish(t, run, 1000)
+}
+
+// c10Gate is the consumer of a real UDP listener: it files what the listener delivers under the
+// datagram's X-Vf id and can be made to block.
+type c10Gate struct {
+	mu      sync.Mutex
+	open    chan struct{}
+	got     map[int][]byte
+	dup     int
+	arrived int64
+}
+
+func (g *c10Gate) HandleMessage(m *Message) {}
+func (g *c10Gate) HandleRawMessage(rm *RawMessage) {
+	g.mu.Lock()
+	ch := g.open
+	g.mu.Unlock()
+	<-ch
+	id := -1
+	if v, err := rm.Message.GetHeaderValue("X-Vf"); err == nil {
+		fmt.Sscanf(fmt.Sprint(v), "%d", &id)
+	}
+	b, _ := rm.Message.Bytes()
+	g.mu.Lock()
+	if _, ok := g.got[id]; ok {
+		g.dup++
+	}
+	g.got[id] = b
+	g.mu.Unlock()
+	atomic.AddInt64(&g.arrived, 1)
+}
+
+func c10UDPDrops(port int) int64 {
+	data, err := os.ReadFile("/proc/net/udp")
+	if err != nil {
+		return -1
+	}
+	want := fmt.Sprintf(":%04X", port)
+	for _, line := range strings.Split(string(data), "\n") {
+		f := strings.Fields(line)
+		if len(f) >= 13 && strings.HasSuffix(f[1], want) {
+			var d int64
+			fmt.Sscanf(f[len(f)-1], "%d", &d)
+			return d
+		}
+	}
+	return -1
+}
+
+func c10Backlog(run *ev.Run) {
+	rounds := ev.Pick(2, 8)
+	var piled, longAfter int64
+	for round := 0; round < rounds && run.Violations() < 5; round++ {
+		probe, err := net.ListenUDP("udp", &net.UDPAddr{IP: net.IPv4(127, 0, 0, 1)})
+		if err != nil {
+			run.Inconclusive(1)
+			return
+		}
+		port := probe.LocalAddr().(*net.UDPAddr).Port
+		probe.Close()
+		u, err := NewUDPServerTransport("127.0.0.1", port, false, NewSelfLearnRoute())
+		if err != nil {
+			run.Inconclusive(1)
+			return
+		}
+		gate := &c10Gate{open: make(chan struct{}), got: map[int][]byte{}}
+		if err := u.Start(gate); err != nil {
+			run.Inconclusive(1)
+			return
+		}
+		cl, err := net.DialUDP("udp", nil, &net.UDPAddr{IP: net.IPv4(127, 0, 0, 1), Port: port})
+		if err != nil {
+			run.Inconclusive(1)
+			return
+		}
+		r := rand.New(rand.NewSource(run.Seed*31 + int64(round)))
+		build := func(id, size int) []byte {
+			br := rand.New(rand.NewSource(int64(id)*7919 + 1))
+			body := make([]byte, size)
+			for i := range body {
+				body[i] = byte('A' + br.Intn(26))
+			}
+			head := fmt.Sprintf("MESSAGE sip:u%d@verif.test SIP/2.0\r\nVia: SIP/2.0/UDP 127.1.0.1:5060;branch=z9hG4bKb%d\r\nCall-ID: b%d@verif\r\nX-Vf: %d\r\nContent-Length: %d\r\n\r\n", id, id, id, id, size)
+			return append([]byte(head), body...)
+		}
+		sent := map[int][]byte{}
+		next := round * 1000000
+		send := func(size int) int {
+			id := next
+			next++
+			d := build(id, size)
+			sent[id] = d
+			cl.Write(d)
+			return id
+		}
+		// the pile: small datagrams of a few sizes, in chunks so that the kernel queue never fills
+		nburst := 1500 + r.Intn(1500)
+		small := []int{0, 3, 40 + r.Intn(100)}
+		for i := 0; i < nburst; i++ {
+			send(small[r.Intn(len(small))])
+			if i%40 == 39 {
+				// closed loop: the receive goroutine has queued what was sent so far (the parser holds
+				// one datagram, blocked in the consumer), so the kernel queue of the socket never fills
+				for dl := time.Now().Add(2 * time.Second); len(u.msgParseChannel) < i-1 && time.Now().Before(dl); {
+					time.Sleep(50 * time.Microsecond)
+				}
+			}
+		}
+		time.Sleep(20 * time.Millisecond)
+		waiting := int64(nburst) - atomic.LoadInt64(&gate.arrived)
+		close(gate.open) // the stall ends
+		await := func(n int64) bool {
+			deadline := time.Now().Add(20 * time.Second)
+			for atomic.LoadInt64(&gate.arrived) < n {
+				if time.Now().After(deadline) {
+					return false
+				}
+				time.Sleep(200 * time.Microsecond)
+			}
+			return true
+		}
+		await(int64(nburst))
+		// afterwards: longer datagrams, one at a time on an idle listener
+		nlong := 120
+		total := int64(nburst)
+		for i := 0; i < nlong; i++ {
+			size := 200 + r.Intn(3000)
+			if i%10 == 0 {
+				size = 20000 + r.Intn(40000)
+			}
+			send(size)
+			total++
+			await2 := time.Now().Add(5 * time.Second)
+			for atomic.LoadInt64(&gate.arrived) < total && time.Now().Before(await2) {
+				time.Sleep(100 * time.Microsecond)
+			}
+			if atomic.LoadInt64(&gate.arrived) < total {
+				total = atomic.LoadInt64(&gate.arrived) // lost: judged below by id
+			}
+		}
+		drops := c10UDPDrops(port)
+		gate.mu.Lock()
+		missingSmall, missingLong, wrong := 0, 0, 0
+		var witness map[string]any
+		for id, d := range sent {
+			got, ok := gate.got[id]
+			isLong := id-round*1000000 >= nburst
+			if !ok {
+				if isLong {
+					missingLong++
+					if witness == nil {
+						witness = map[string]any{"datagram_bytes": len(d), "sent_alone_to_an_idle_listener_after_the_pile": true, "head": string(d[:vfMin(len(d), 160)])}
+					}
+				} else {
+					missingSmall++
+				}
+				continue
+			}
+			// the image of the datagram alone: same start line, own id, own body
+			di := bytes.Index(d, []byte("\r\n\r\n"))
+			gi := bytes.Index(got, []byte("\r\n\r\n"))
+			if gi < 0 || !bytes.Equal(got[gi+4:], d[di+4:]) || !bytes.HasPrefix(got, d[:bytes.IndexByte(d, '\r')]) {
+				wrong++
+				witness = map[string]any{"datagram_bytes": len(d), "relayed_bytes": len(got), "head": string(d[:vfMin(len(d), 160)])}
+			}
+		}
+		dup := gate.dup
+		gate.mu.Unlock()
+		cl.Close()
+		vfRecover("close", func() { u.conn.Close() })
+		atomic.AddInt64(&piled, waiting)
+		atomic.AddInt64(&longAfter, int64(nlong))
+		obs := map[string]any{"datagrams_in_the_pile": nburst, "waiting_for_the_parser_when_the_stall_ended": waiting, "kernel_drops_on_the_listener_socket": drops,
+			"missing_of_the_pile": missingSmall, "missing_of_the_longer_datagrams_sent_afterwards": missingLong, "not_the_image_of_their_datagram": wrong, "delivered_twice": dup, "witness": witness}
+		switch {
+		case wrong > 0 || dup > 0:
+			run.Violation("under a pile of waiting datagrams a datagram was not processed as the image of itself", obs)
+		case drops > 0 || drops < 0:
+			run.Inconclusive(1) // the kernel dropped something (or cannot be asked): losses cannot be attributed
+		case missingLong > 0 || missingSmall > 0:
+			run.Violation("complete datagrams were discarded after many datagrams had been waiting for the parser", obs)
+		}
+		run.Eval(fmt.Sprintf("backlog-%d", round))
+	}
+	run.Observe("datagrams_waiting_for_the_parser_when_stalls_ended", piled)
+	run.Observe("longer_datagrams_sent_after_the_piles", longAfter)
 }
